@@ -83,6 +83,13 @@ def two_body_system():
   return n, sysd, st, symarr('u', (0,)), c
 
 
+def chain_contact_system():
+  """The articulated chain with two self-contacts between links 0 and 2: joints, actuators, limits and
+  (internal) contacts act in the same step, so every pairing has to cancel at once."""
+  n, sysd, st, act, _ = chain_system()
+  return n, sysd, st, act, symsys.contact(([0, 0], [2, 2]))
+
+
 PJ = 'brax.positional.joints'
 PC = 'brax.positional.collisions'
 
@@ -220,6 +227,9 @@ def momentum(U, rep, tier):
            ('positional', 'chain f-1-1, actuators, limits', chain_system),
            ('positional', 'star: free root with three children and a grandchild', star_system),
            ('positional', 'two free bodies, two contacts', two_body_system)]
+  if tier == 'thorough':
+    cases += [('spring', 'chain f-1-1 with actuators, limits AND two self-contacts between links 0 and 2', chain_contact_system),
+              ('positional', 'chain f-1-1 with actuators, limits AND two self-contacts between links 0 and 2', chain_contact_system)]
   import os
   seed0 = int(os.environ.get('VERIF_SEED', '0') or 0)
   trials = 3 if tier == 'quick' else 12
